@@ -1,6 +1,14 @@
 from common import COMMON_TRUST
 from wt_common import WT_LEAN, WT_TRUST, wt_engine, e2e_engine, E2E_TRUST
 
+# The lane/store failure rig (`sv-lanefail` / monitor `lanefail`): the REAL runtime runs a harness-implemented agent whose
+# lanes and stores break their output channel on scripted steps (bad tag, garbage, bad map operation, truncated frame,
+# dropped channel) while other lanes keep working; closes the gap `lane output -> ResponseReceiver -> Failed::{Lane,
+# Store} -> WriteTaskEvent` that `wt` (injects laneFailed into WriteTaskState) and `e2e` (no lane ever fails) leave.
+LANEFAIL = {"name": "lanefail", "crate": "core", "bin": "sv-lanefail", "machine": "lanefail", "modes": ["monitor"],
+            "reasons": r"lanefail-.*", "cases": {"quick": 24000, "thorough": 600000}, "min_shard": 1500,
+            "nontrivial_min_ops": 6, "timeout": 3000}
+
 PROP = {
     "generated": [],
     "lean_modules": WT_LEAN + ["SwimVerif.Model.LinksSys", "SwimVerif.Proofs.Links", "SwimVerif.Proofs.LinksTotal",
@@ -8,9 +16,10 @@ PROP = {
                                "SwimVerif.Proofs.LinkLangUplinks", "SwimVerif.Proofs.LinkLangRemote",
                                "SwimVerif.Proofs.LinkLangFlow", "SwimVerif.Proofs.LinkLangLinks",
                                "SwimVerif.Proofs.LinkLangState", "SwimVerif.Proofs.LinkLangGInv",
-                               "SwimVerif.Proofs.LinkLangDone", "SwimVerif.Proofs.LinkLangStop"],
+                               "SwimVerif.Proofs.LinkLangDone", "SwimVerif.Proofs.LinkLangStop",
+                               "SwimVerif.Model.LaneFail", "SwimVerif.Proofs.LaneFail"],
     "engines": [
-        e2e_engine("C04"),wt_engine("C04")],
+        e2e_engine("C04"), wt_engine("C04"), LANEFAIL],
     "level_text": "Proof: for every registry and every interleaving of lane events, link/unlink/lane-not-found "
                   "messages and write completions on one remote's Uplinks queue: no event body is ever sent (or "
                   "buffered) that was not pushed for that lane (no fabrication), at most one write is in flight, "
@@ -25,11 +34,21 @@ PROP = {
                   "unknown_lane_one_unlinked and stop_closes_all over reachable states; it is also decided on "
                   "implementation traces by the Lean monitor. The statement without the lane-name condition is "
                   "false (C04_link_language_fails: duplicate lane name; the real WriteTaskState shows the same: "
-                  "event after unlinked).",
+                  "event after unlinked). The glue from a lane's/store's output channel to the write task "
+                  "(ResponseReceiver decoders -> Failed::Lane/Store -> LaneFailed/StoreFailed -> remove_lane) is "
+                  "exercised on the REAL runtime by the lanefail rig: every kind of undecodable output (bad tag, "
+                  "garbage, bad map operation, truncated frame) on a value, map or supply lane gives every linked "
+                  "remote exactly one unlinked and nothing after, other lanes and remotes are unaffected, a failing "
+                  "store unlinks nobody, and agent stop closes every remaining link (monitor with an embedded "
+                  "reference behaviour; the answers to later requests for a broken lane are pinned as observed).",
     "level_note": "The frame-language theorem is about the model (tied to WriteTaskState by correspondence) and needs "
                   "lane names to be registered once (the runtime does not check this itself; AgentModel does); the "
                   "read task, select! ordering and real socket back-pressure are outside the model.",
-    "trusted_base": COMMON_TRUST + WT_TRUST + E2E_TRUST,
+    "trusted_base": COMMON_TRUST + WT_TRUST + E2E_TRUST + [
+        "lanefail rig: the harness plays the lane/store side of the agent protocol with the raw codecs and lets the "
+        "runtime settle (paused tokio clock) after every step; the behaviour of requests addressed to a lane after "
+        "its output broke or ended is pinned as observed, not derived from the property text",
+    ],
     "assumptions": ["one WriteTaskEvent is processed at a time (single task)",
                     "a remote id is attached at most once (ids are unique per connection)",
                     "a lane name is registered at most once (enforced by swimos_agent's AgentModel, not by the runtime)"],
